@@ -186,6 +186,13 @@ func (s *Stream) SetReadDeadline(deadline time.Time) error {
 				default:
 				}
 				s.lock.Lock()
+				if s.readTimeoutCancel != readTimeoutCancel {
+					// the deadline was changed or cleared after this timer had fired
+					// but before the lock was taken: this expiry is out of date.
+					s.lock.Unlock()
+
+					return
+				}
 				if s.readErr == nil {
 					s.readErr = ErrReadDeadlineExceeded
 				}
